@@ -7,6 +7,8 @@ R1 value-set containment: for every configuration point of the lattice the
 R2 min()/max() (constant-folded by the same interpreter) enclose the
    abstract output interval (alpha=None).
 R3 every self./super() method called from min/max/range resolves in the MRO.
+R4 range() (interpreted, numpy arrays concrete) enumerates exactly the
+   abstract output value set, for the configurations range() accepts.
 """
 import ast
 from fractions import Fraction as F
@@ -128,6 +130,26 @@ def run(rep, repo, tier):
                 (mn, mx, lo, hi), instance=cfg,
                 facts={"config": cfg, "min": str(mn), "max": str(mx),
                        "out_lo": str(lo), "out_hi": str(hi)})
+    # R4 range() enumerates exactly the reachable set
+    if kw.get("alpha", None) is None and mod.classes[cls].find_method(
+        "range")[1] is not None and got.kind == "fin":
+      runit = "%s::%s.range" % (mod.relpath, cls)
+      try:
+        pe_r, obj_r = quant.construct(repo, cls, kw)
+        rv = pe_r.call(pe_r.getattr(obj_r, "range"), [], {})
+      except (PyRaise, ConfigRejected):
+        rv = None   # range() does not support this configuration
+      if isinstance(rv, list) and rv and all(
+          not isinstance(e, Tensor) for e in rv):
+        vals = sorted({F(e) for e in rv})
+        want_r = sorted(got.vals)
+        rep.check(vals == want_r, "R4", runit, "range!=reachable-set",
+                  "range() lists %s%s, the quantizer can emit exactly %s%s" %
+                  ([str(v) for v in vals[:10]], "..." if len(vals) > 10
+                   else "", [str(v) for v in want_r[:10]],
+                   "..." if len(want_r) > 10 else ""), instance=cfg,
+                  loc=pe_r.repo.module(quant.QMOD).loc(
+                      mod.classes[cls].find_method("range")[1]))
   rep.extra["configuration_points"] = npoints
   rep.extra["configurations_rejected_by_constructor_or_asserts"] = rejected
   # R3
@@ -158,3 +180,4 @@ def run(rep, repo, tier):
   rep.require_instances("R1", 400)
   rep.require_instances("R2", 100)
   rep.require_instances("R3", 3)
+  rep.require_instances("R4", 60)
